@@ -7,6 +7,7 @@ import PoxModel.Proofs.STreeReach
 import PoxModel.Proofs.DiscoveryAdj
 import PoxModel.Proofs.DiscoveryFlood
 import PoxModel.Proofs.ProbeFrame
+import PoxModel.Proofs.DiscoveryTimer
 /-! # C19 — discovered topology is the physical one; flooding is pruned to a tree
 
 Property theorems only (helper lemmas live in `Proofs/STree*.lean`, `Proofs/Discovery*.lean`, `Proofs/Probe*.lean`).
@@ -193,6 +194,56 @@ def hist1 : List Op :=
 example : stream l12 (evsOf (runOps fixed Discovery.init hist1).2) = [true, false, true, false] := by decide
 example : (l12, 1004000) ∈ (runOps pinned Discovery.init (hist1.take 6)).1.adj := by decide
 example : (runOps pinned Discovery.init (hist1.take 7)).1.adj = [] := by decide
+
+/-! ## The expiry timer: histories in which nobody calls `_expire_links` by hand
+
+`runT` (Model/Discovery.lean Part 3): `up` / `down` / `probe` happen, `wait dt` lets time pass; the sweeps are run by the recurring
+`Timer(_timeout_check_period, _expire_links, recurring=True)` of `Discovery.__init__` under the contract of `recoco.Timer.run`, in
+which the next round depends on what the callback returned (`timerGoesOn`). -/
+
+/-- THE TIMER NEVER STOPS.  After every timed history the expiry timer is set, for a time strictly ahead and at most one check period
+away: no quiet round, no round that expired something, and no amount of waiting ever ends it. -/
+theorem timer_never_stops (v : Variant) (ops : List TOp) :
+    ∃ n, (runT v tinit ops).1.next = some n ∧ (runT v tinit ops).1.d.now < n ∧ n ≤ (runT v tinit ops).1.d.now + CHECK_PERIOD := by
+  obtain ⟨n, hi, hlt⟩ := (runT_ok v ops tinit tinit_ok).ex
+  exact ⟨n, hi.next, hlt, hi.near⟩
+
+/-- THE LINKS OF A SILENT SWITCH ARE WITHDRAWN (with the timer in the model, not assumed).  At every moment of every timed history a
+link of the adjacency was last probed less than link timeout + check period ago: a link that stops carrying probes — no ConnectionDown,
+no port status, nothing — is gone 15 s later at the latest. -/
+theorem timer_withdraws (v : Variant) (ops : List TOp) (l : Link) (t : Nat) (h : (l, t) ∈ (runT v tinit ops).1.d.adj) :
+    (runT v tinit ops).1.d.now < t + LINK_TIMEOUT + CHECK_PERIOD := by
+  obtain ⟨n, hi, hlt⟩ := (runT_ok v ops tinit tinit_ok).ex
+  exact Nat.lt_of_lt_of_le hlt (hi.fresh l t h)
+
+/-- A TIMED HISTORY IS A HISTORY: the state it leads to and the LinkEvents it raises are those of the plain history `expand` writes
+out (the timer's sweeps as `sweep` ops at the times the timer picks) — so `adjacency_exact`, `link_events`, `flood_keeps`, … speak
+about timer-driven runs too. -/
+theorem timed_is_history (v : Variant) (ops : List TOp) :
+    (runT v tinit ops).1.d = (runOps v Discovery.init (expand Discovery.init.now (Discovery.init.now + CHECK_PERIOD) ops)).1 ∧
+    evsOf (runT v tinit ops).2 = evsOf (runOps v Discovery.init (expand Discovery.init.now (Discovery.init.now + CHECK_PERIOD) ops)).2 :=
+  runT_eq v ops tinit tinit_ok _ rfl
+
+/-- … for instance LINK_EVENTS: in a timer-driven run, too, the events about a link alternate added / removed, starting with added. -/
+theorem timed_link_events (v : Variant) (ops : List TOp) (l : Link) :
+    altFrom true (stream l (evsOf (runT v tinit ops).2)) := by
+  rw [(timed_is_history v ops).2]
+  exact link_events v _ l
+
+/-- the contract the two sites share: a self-stoppable timer (the default) whose callback returns `False` is over; `None` (what
+`_expire_links` returns) and `True` keep it going -/
+example : timerGoesOn true (some false) = false ∧ timerGoesOn true none = true ∧ timerGoesOn true (some true) = true ∧
+    timerGoesOn false (some false) = true ∧ expireReturns = none := by decide
+
+/-- non-vacuity: two switches, one cable; 17 quiet seconds (three rounds that find nothing), then no probe any more: both links are
+announced removed by the round at 30 s, the timer is set for 45 s; and a link probed at 17 s is still there at 26 s -/
+def bothWays : List TOp := [.probe ⟨1, 1, 2, 1⟩ [1, 2], .probe ⟨2, 1, 1, 1⟩ [1, 2]]
+def quietThenSilent : List TOp :=
+  [.up 1 [1, 2], .up 2 [1, 2]] ++ bothWays ++ [.wait 4000 [1, 2]] ++ bothWays ++ [.wait 4000 [1, 2]] ++ bothWays ++
+  [.wait 4000 [1, 2]] ++ bothWays ++ [.wait 5000 [1, 2]] ++ bothWays ++ [.wait 9000 [1, 2], .wait 17000 [1, 2]]
+example : (runT full tinit quietThenSilent).1.d.adj = [] ∧ (runT full tinit quietThenSilent).1.next = some 1045000 ∧
+    stream ⟨1, 1, 2, 1⟩ (evsOf (runT full tinit quietThenSilent).2) = [true, false] := by decide
+example : ((runT full tinit quietThenSilent.dropLast).1.d.adj.map (·.1)) = [⟨1, 1, 2, 1⟩, ⟨2, 1, 1, 1⟩] := by decide
 
 /-! ## Flood bits -/
 
